@@ -91,9 +91,21 @@ func init() {
 		if r.re != nil && r.pattern.s == "" {
 			return ret1(st, tTrue) // the empty pattern matches everything
 		}
-		name := "rematch!" + strKey(r.pattern) + "!" + strKey(s)
-		v := mkVar(name, SBool, 0, 1)
-		w.job.noteVar(name)
+		// a literal pattern (no metacharacters) is decided exactly: substring search over the symbolic bytes
+		if r.re != nil && regexp.QuoteMeta(r.pattern.s) == r.pattern.s {
+			pat := r.pattern.s
+			var alts []*Term
+			for i := 0; i+len(pat) <= s.length(); i++ {
+				cs := make([]*Term, len(pat))
+				for j := 0; j < len(pat); j++ {
+					cs[j] = mkEq(s.at(i+j), mkInt(int64(pat[j])))
+				}
+				alts = append(alts, mkAnd(cs...))
+			}
+			return ret1(st, mkOr(alts...))
+		}
+		// otherwise: an uninterpreted predicate of (pattern, value bytes)
+		v := mkUF("rematch!"+strKey(r.pattern)+fmt.Sprintf("!%d", s.length()), SBool, s.bytes())
 		return ret1(st, v)
 	}
 	natives["(*regexp.Regexp).String"] = func(w *Worker, st *State, args []Value, fv *FuncV, depth int) []Outcome {
